@@ -10,7 +10,7 @@
 /* ---- stubs: string builder sink and reader source ------------------------------------------------------------ */
 static unsigned char g_out[8];
 static unsigned g_out_len;
-void StringBuilder__append__char(struct StringBuilder *self, char c) {
+void LogBuilder__append(struct LogBuilder *self, char c) {
   (void)self;
   if (g_out_len < 8) g_out[g_out_len] = (unsigned char)c;
   g_out_len++;
@@ -92,10 +92,10 @@ void h_utf16_append(void) {
 void h_utf8_encode(void) {
   uint32_t cp = in_u32();
   __CPROVER_assume(cp < 0x110000);
-  struct StringBuilder sb;
+  struct LogBuilder sb;
   memset(&sb, 0, sizeof sb);
   g_out_len = 0;
-  Utf8__encodeCodepoint_StringBuilder(cp, &sb);
+  Utf8__encodeCodepoint_LogBuilder(cp, &sb);
   unsigned char want[4];
   unsigned n = spec_utf8(cp, want);
   COVER(n == 1); COVER(n == 2); COVER(n == 3); COVER(n == 4);
@@ -176,10 +176,10 @@ void h_pair_utf8(void) {
   __CPROVER_assume(hi >= 0xD800 && hi < 0xDC00 && lo >= 0xDC00 && lo < 0xE000);
   (void)Utf16__Codepoint__append(&cp, hi);
   _Bool done = Utf16__Codepoint__append(&cp, lo);
-  struct StringBuilder sb;
+  struct LogBuilder sb;
   memset(&sb, 0, sizeof sb);
   g_out_len = 0;
-  Utf8__encodeCodepoint_StringBuilder(Utf16__Codepoint__value(&cp), &sb);
+  Utf8__encodeCodepoint_LogBuilder(Utf16__Codepoint__value(&cp), &sb);
   uint32_t scalar = 0x10000u + (((uint32_t)hi & 0x3FF) << 10) + ((uint32_t)lo & 0x3FF);
   unsigned char want[4];
   unsigned n = spec_utf8(scalar, want);
